@@ -25,7 +25,7 @@ def _mentions(expr, acc):
 def variables_used(scn) -> set:
     used = set()
     for op in scn.get("ops", []):
-        args = op.get("args", []) if isinstance(op, dict) else op
+        args = (op.get("args") or op.get("do") or []) if isinstance(op, dict) else op
         for a in args:
             if isinstance(a, str):
                 used.add(a)
